@@ -63,6 +63,9 @@ func main() {
 		}
 	}
 	err := f(o)
+	if fam != "kill-launcher" { // that one exists to leave its plugin running
+		reapLaunched()
+	}
 	cleanup()
 	if err != nil {
 		fmt.Fprintln(os.Stderr, "hx:", err)
